@@ -81,87 +81,191 @@ def worker(config, tier, seed):
         return [Result(name="translate", kind="identity", status="unknown", config=config["name"], detail=f"Unsupported: {exc}")]
 
 
-def run(config, tier, seed):
-    from ampform.helicity.naming import generate_transition_label
+def coeff_of(expr):
+    return sp.Mul(*sorted((s_ for s_ in expr.free_symbols if is_coeff(s_)), key=str))
 
+
+def term_list(expr):
+    """Add args with integer multiplicities expanded: 2*X -> [X, X]"""
+    out = []
+    for a in sp.Add.make_args(expr):
+        k, rest = a.as_coeff_Mul()
+        if k.is_Integer and abs(k) > 1:
+            out += [sp.sign(k) * rest] * abs(int(k))
+        else:
+            out.append(a)
+    return out
+
+
+def match_terms(ctx, tr, args, ref_terms):
+    """greedy matching of library terms to reference terms; every equality is decided by z3"""
+    used, result = set(), []
+    ref_coeff = [coeff_of(r) for r in ref_terms]
+    for a in args:
+        ca, Va, hit = coeff_of(a), None, None
+        for i, r in enumerate(ref_terms):
+            if i in used or ref_coeff[i] != ca:
+                continue
+            Va = Va if Va is not None else tr(a.doit())
+            if holds(ctx, Va, tr(r)):
+                hit = i
+                break
+        if hit is not None:
+            used.add(hit)
+        result.append(hit)
+    return result, used
+
+
+def reference_groups(reaction, builder, model, canonical, lineshape=None):
+    """{outer key: [kappa*C*reference chain amplitude, ...]} incl. identical-particle symmetrisation; the
+    sign kappa and the coefficient symbol of a chain are read from the library's own chain component"""
+    groups: dict = {}
+    seen = set()
+    info = {}
+    for k, t in enumerate(reaction.transitions):
+        name = "A_{" + builder.naming.generate_amplitude_name(t) + "}"
+        comp = model.components.get(name)
+        if comp is None:
+            continue
+        coeff = coeff_of(comp)
+        kappa = comp.as_coeff_Mul()[0]
+        kappa = int(kappa) if kappa in (1, -1) else 1
+        syms = symmetrised(t)
+        refs = [chain_amplitude(s_, canonical=canonical, lineshape=lineshape) for s_ in syms]
+        info[k] = (name, comp, coeff, kappa, syms, refs)
+        for s_, ref in zip(syms, refs):
+            ident = (coeff, tuple(sorted((i, str(st)) for i, st in s_.states.items())), tuple(sorted((i, e.originating_node_id, e.ending_node_id) for i, e in s_.topology.edges.items())))
+            if ident in seen:
+                continue
+            seen.add(ident)
+            groups.setdefault(outer_key(t), []).append(kappa * coeff * ref)
+    return groups, info
+
+
+def run(config, tier, seed):
     reaction, builder, model = build(config)
     canonical = config["formalism"] == "canonical-helicity"
     ctx = Ctx(config["name"])
     tr = Translator(ctx, complex_symbols=is_coeff)
-    out, obs = [], []
-    # ---- (i) every chain component == kappa * coefficient * reference chain amplitude
-    chain_ref = {}  # index of transition -> (coefficient expr, kappa, list of reference chain amplitudes)
-    pairs = {}
-    for k, t in enumerate(reaction.transitions):
-        name = "A_{" + builder.naming.generate_amplitude_name(t) + "}"
-        comp = model.components.get(name)
-        syms = symmetrised(t)
-        refs = [chain_amplitude(s_, canonical=canonical) for s_ in syms]
-        if comp is None:
-            out.append(Result(name=f"component {name} exists", kind="ground", status="fail", config=config["name"], replay={"reproduced": True}))
-            continue
-        coeff = sp.Mul(*sorted((s_ for s_ in comp.free_symbols if is_coeff(s_)), key=str))
+    out, obs, pairs = [], [], {}
+
+    def grd(name, ok, **info):
+        out.append(Result(name=name, kind="ground", status="ok" if ok else "fail", config=config["name"], replay={"reproduced": not ok, **{k: str(v)[:300] for k, v in info.items()}}))
+
+    groups, info = reference_groups(reaction, builder, model, canonical)
+    # ---- (i) every named chain component == kappa * coefficient * reference chain amplitude
+    for k, (name, comp, coeff, kappa, syms, refs) in info.items():
         Vc = tr(comp.doit())
-        # the chain's sign relative to its coefficient is the explicit numeric factor the library wrote (+-1)
-        kappa = comp.as_coeff_Mul()[0]
-        if kappa not in (1, -1):
-            kappa = sp.Integer(1)
-        kappa = int(kappa)
         idx = next((q for q, ref in enumerate(refs) if holds(ctx, Vc, tr(coeff * ref) * kappa)), 0)
-        label = f"chain {name} == ({kappa:+d})*coefficient*reference[perm {idx}]"
+        label = f"(i) chain {name} == ({kappa:+d})*coefficient*reference[perm {idx}]"
         obs += identity_obligations(label, Vc, tr(coeff * refs[idx]) * kappa)
-        pairs[label] = (comp.doit(), kappa * coeff * refs[idx], False)
-        chain_ref[k] = (coeff, kappa, refs)
-    # ---- (ii) intensity == incoherent sum over outer projections of |coherent sum|^2
-    groups: dict = {}
-    seen_terms = set()
-    for k, t in enumerate(reaction.transitions):
-        if k not in chain_ref:
+        pairs[label] = (comp.doit(), kappa * coeff * refs[idx])
+    missing = [t for k, t in enumerate(reaction.transitions) if k not in info]
+    grd("(i) every transition has a chain component", not missing, missing=len(missing))
+    # ---- (ii) amplitude definitions: the multiset of their terms == the reference terms of ONE outer-projection group
+    amp_group = {}
+    for A, definition in model.amplitudes.items():
+        if definition == 0:
+            continue  # helicity combination without a transition: contributes nothing
+        args = term_list(definition)
+        first = None
+        for key, terms in groups.items():
+            res, used = match_terms(ctx, tr, args[:1], terms)
+            if res[0] is not None:
+                first = key
+                break
+        if first is None:
+            label = f"(ii) amplitude {A}: first term is a reference chain term"
+            obs += identity_obligations(label, tr(args[0].doit()), ctx.const(0) if not groups else tr(next(iter(groups.values()))[0]))
+            pairs[label] = (args[0].doit(), next(iter(groups.values()))[0])
             continue
-        coeff, kappa, refs = chain_ref[k]
-        for s_, ref in zip(symmetrised(t), refs):
-            ident = (coeff, tuple(sorted((i, str(st)) for i, st in s_.states.items())), tuple(sorted((i, e.originating_node_id, e.ending_node_id) for i, e in s_.topology.edges.items())))
-            if ident in seen_terms:
-                continue
-            seen_terms.add(ident)
-            groups.setdefault(outer_key(t), []).append(kappa * coeff * ref)
-    ref_intensity = sp.Add(*[sp.Abs(sp.Add(*terms)) ** 2 for terms in groups.values()])
-    expr = model.expression.doit()
-    obs += identity_obligations("intensity == sum_outer |sum_chains|^2", tr(expr), tr(ref_intensity))
-    pairs["intensity == sum_outer |sum_chains|^2"] = (expr, ref_intensity, False)
-    # ---- (iii) named intensity components
+        amp_group.setdefault(first, []).append((A, args))
+    for key, lst in amp_group.items():
+        args_all = [a for _, args in lst for a in args]
+        res, used = match_terms(ctx, tr, args_all, groups[key])
+        for a, hit in zip(args_all, res):
+            if hit is None:
+                label = f"(ii) term of group {key[1]} matches a reference chain: {str(a)[:80]}"
+                cands = [r for r in groups[key] if coeff_of(r) == coeff_of(a)] or groups[key][:1]
+                obs += identity_obligations(label, tr(a.doit()), tr(cands[0]))
+                pairs[label] = (a.doit(), cands[0])
+            else:
+                label = f"(ii) term == reference chain #{hit} of group {key[1]}: {str(a)[:60]}"
+                obs += identity_obligations(label, tr(a.doit()), tr(groups[key][hit]))
+                pairs[label] = (a.doit(), groups[key][hit])
+        grd(f"(ii) group {key[1]}: every reference chain term occurs exactly once in the amplitude definitions", len(used) == len(groups[key]) and None not in res,
+            library_terms=len(args_all), reference_terms=len(groups[key]), unmatched_reference=[str(groups[key][i])[:80] for i in range(len(groups[key])) if i not in used][:3])  # fmt: skip
+    grd("(ii) every outer-projection group of the reference has an amplitude definition", set(amp_group) == set(groups), missing=[k[1] for k in set(groups) - set(amp_group)][:3])
+    # ---- (iii) intensity: incoherent over outer-projection groups, coherent within a group (all topologies)
+    A_vals = {A: (ctx.cvar(f"amp[{A}]") if d != 0 else ctx.const(0)) for A, d in model.amplitudes.items()}
+    tr_int = Translator(ctx, symbol_values=dict(A_vals), complex_symbols=is_coeff)
+    want = ctx.const(0)
+    want_expr = sp.Integer(0)
+    for key, lst in amp_group.items():
+        acc = ctx.const(0)
+        for A, _ in lst:
+            acc = acc + A_vals[A]
+        want = want + acc.abs2()
+        want_expr += sp.Abs(sp.Add(*[A for A, _ in lst])) ** 2
+    I_eval = model.intensity.evaluate()
+    label = "(iii) intensity (PoolSum unfolded) == sum_groups |sum of the group's amplitude symbols|^2"
+    obs += identity_obligations(label, tr_int(I_eval), want)
+    undefined = sorted(str(s_) for s_ in I_eval.atoms(sp.Indexed) if s_ not in model.amplitudes)
+    pairs[label] = (I_eval, want_expr)
+    # expression == the same with the definitions inserted; every chain term is an opaque complex unknown
+    term_vals, want2, want2_expr = {}, ctx.const(0), sp.Integer(0)
+    q = 0
+    for key, lst in amp_group.items():
+        acc = ctx.const(0)
+        for A, args in lst:
+            for a in args:
+                if a not in term_vals:
+                    term_vals[a] = ctx.cvar(f"term{q}")
+                    term_vals.setdefault(-a, -term_vals[a])  # Abs() canonicalises an overall sign
+                    q += 1
+                acc = acc + term_vals[a]
+        want2 = want2 + acc.abs2()
+        want2_expr += sp.Abs(sp.Add(*[a for _, args in lst for a in args])) ** 2
+    tr_expr = Translator(ctx, symbol_values={**term_vals, **A_vals}, complex_symbols=is_coeff)
+    label = "(iii) expression == sum_groups |sum of chain terms|^2 (chain terms opaque)"
+    obs += identity_obligations(label, tr_expr(model.expression), want2)
+    pairs[label] = (model.expression, want2_expr)
+    # ---- (iv) named intensity components
+    from ampform.helicity.naming import generate_transition_label
+
     first_of_group: dict = {}
     for t in reaction.transitions:
         first_of_group.setdefault(outer_key(t), t)
     for key, t in first_of_group.items():
         cname = "I_{" + generate_transition_label(t) + "}"
         comp = model.components.get(cname)
-        if comp is None:
+        if comp is None or not isinstance(comp, sp.Pow) or not isinstance(comp.base, sp.Abs):
             continue
-        want = sp.Abs(sp.Add(*groups.get(key, [sp.Integer(0)]))) ** 2
-        obs += identity_obligations(f"component {cname} == |group sum|^2", tr(comp.doit().xreplace(model.amplitudes).doit()), tr(want))
-        pairs[f"component {cname} == |group sum|^2"] = (comp.doit().xreplace(model.amplitudes).doit(), want, False)
+        args = term_list(comp.base.args[0])
+        res, used = match_terms(ctx, tr, args, groups.get(key, []))
+        if None in res:  # Abs() canonicalises an overall sign
+            res, used = match_terms(ctx, tr, [-a for a in args], groups.get(key, []))
+        grd(f"(iv) component {cname}: terms == reference chains of its group", None not in res and len(used) == len(groups.get(key, [])),
+            library_terms=len(args), reference_terms=len(groups.get(key, [])))  # fmt: skip
 
     def replay(name, asg):
         head = name.split("::")[0]
-        lhs, rhs, either_sign = pairs[head]
+        lhs, rhs = pairs[head]
         subs = subs_from_assignment(tr, asg)
-        free = (lhs.free_symbols | rhs.free_symbols) - set(subs)
-        for k_, s_ in enumerate(sorted(free, key=str)):
-            # symbols the encoding treated as free but the model leaves undefined (e.g. amplitude symbols)
-            subs[s_] = sp.Rational(3 + k_, 7)
-        r = differs(lhs, rhs, subs, rel=1e-10)
-        if either_sign and r["reproduced"]:
-            r2 = differs(lhs, -rhs, subs, rel=1e-10)
-            r["reproduced"] = r2["reproduced"]
-        undefined = sorted(str(s_) for s_ in lhs.atoms(sp.Indexed))
-        if undefined:
-            r["undefined_amplitude_symbols_in_expression"] = undefined
+        for q, s_ in enumerate(sorted((lhs.free_symbols | rhs.free_symbols | lhs.atoms(sp.Indexed) | rhs.atoms(sp.Indexed)) - set(subs), key=str)):
+            nm = f"amp[{s_}]"
+            if f"re[{nm}]" in asg:
+                subs[s_] = sp.Rational(*asg[f"re[{nm}]"].as_integer_ratio()) + sp.I * sp.Rational(*asg[f"im[{nm}]"].as_integer_ratio())
+            else:
+                subs[s_] = sp.Rational(3 + q, 7) + sp.I * sp.Rational(1 + q, 9)
+        r = differs(lhs.doit(), rhs.doit(), subs, rel=1e-10)
+        if undefined and head.startswith("(iii) intensity"):
+            r["undefined_amplitude_symbols_in_intensity"] = undefined
         return r
 
-    res = discharge(ctx, obs, config=config["name"], replay=replay, timeout_s=config.get("timeout", 120), hunt_rounds=4)
-    for r in res:
-        if r.status == "sat":
+    res = discharge(ctx, obs, config=config["name"], replay=replay, timeout_s=config.get("timeout", 60), hunt_rounds=2)
+    for r in out + res:
+        if r.status in ("sat", "fail"):
             r.selector = f"{config['name']}::{r.name.split('::')[0]}"
     return out + res
 
